@@ -887,29 +887,46 @@ def multisync_part(prop, tier, wd, scratch, all_known):
     def features(h):
         """Pairs of edit kinds made on the two devices inside one offline window (between syncs)."""
         feats = set()
-        window = {"a": [], "b": []}
+        window = {}
         for s in h:
             op = s["op"]
             if op["op"] == "edit":
-                window[op["d"]].append(op["kind"])
+                window.setdefault(op["d"], []).append(op["kind"])
                 feats.add(("kind", op["kind"]))
             elif op["op"] == "sync":
-                other = "b" if op["d"] == "a" else "a"
-                for x in window[op["d"]]:
-                    for y in window[other]:
-                        feats.add(("pair",) + tuple(sorted((x, y))))
+                for other in list(window):
+                    if other == op["d"]:
+                        continue
+                    for x in window.get(op["d"], []):
+                        for y in window[other]:
+                            feats.add(("pair",) + tuple(sorted((x, y))))
                 window[op["d"]] = []
         return feats
-    pool = [(features(h), h) for h in beh]
-    chosen, covered = [], set()
-    while pool and len(chosen) < want:
-        pool.sort(key=lambda fh: -len(fh[0] - covered))
-        f, h = pool.pop(0)
-        covered |= f
-        chosen.append(h)
-    beh = chosen
+
+    def choose(behs, n):
+        pool = [(features(h), h) for h in behs]
+        chosen, cov = [], set()
+        while pool and len(chosen) < n:
+            pool.sort(key=lambda fh: -len(fh[0] - cov))
+            f, h = pool.pop(0)
+            cov |= f
+            chosen.append(h)
+        return chosen, cov
+    beh, covered = choose(beh, want)
     if len(beh) < want // 2:
         raise ToolError("TLC emitted only %d multi-log behaviours" % len(beh))
+    if tier != "quick":
+        # three devices (simulation only: the exhaustive check above is for two)
+        cfg = vlib.render_cfg("MC_MultiSync.cfg", dict(consts, Devices='{"a", "b", "c"}', MaxEdits="6",
+                                                       Deviations=dev_set(devs), EmitBehaviours="TRUE"),
+                              os.path.join(wd, "ms_emit3.cfg"))
+        _strip_invariants(cfg, ["QuiescentConverged", "SuccessMeansEqual", "NoLoss"])
+        raw3 = _emit_cases("MC_MultiSync", cfg, prop + "m3", simulate=(1500, 60), timeout_s=600)
+        u3 = {}
+        for h in raw3:
+            u3.setdefault(json.dumps([s["op"] for s in h[:-1]]), h)
+        b3, _ = choose(list(u3.values()), 40)
+        beh += b3
     vlib.cargo_build()
     chunks = 8
     per = (len(beh) + chunks - 1) // chunks
